@@ -198,6 +198,9 @@ func (e *Engine) merge2(c *Term, a, b *State) *State {
 	if len(a.Frames) != len(b.Frames) || a.Status != b.Status || len(a.Obs) != len(b.Obs) {
 		return e.mfail("shape")
 	}
+	if len(a.Parked) > 0 || len(b.Parked) > 0 {
+		return e.mfail("threads")
+	}
 	n := &State{Status: a.Status, Steps: maxInt(a.Steps, b.Steps), Unwind: a.Unwind, UnwindCut: a.UnwindCut, TripBound: a.TripBound, Forks: maxInt(a.Forks, b.Forks), Budget: a.Budget}
 	// frames
 	n.Frames = make([]*Frame, len(a.Frames))
